@@ -33,9 +33,11 @@ REPO = Path(os.environ.get("VERIF_REPO", "/repo"))
 LEAN = ROOT / "lean"
 GEN = LEAN / "CollectionsC" / "Generated"
 PROPS = [LEAN / "CollectionsC" / "Properties" / "C19Gen.lean", LEAN / "CollectionsC" / "Properties" / "C12Gen.lean",
-         LEAN / "CollectionsC" / "Properties" / "C10Gen.lean"]
+         LEAN / "CollectionsC" / "Properties" / "C10Gen.lean", LEAN / "CollectionsC" / "Properties" / "C01Gen.lean",
+         LEAN / "CollectionsC" / "Properties" / "C09Gen.lean"]
 LIB = LEAN / ".lake" / "build" / "lib" / "lean"
-RB, SP, PQ = "src/cc_ring_buffer.c", "src/memory/cc_static_pool.c", "src/cc_pqueue.c"
+RB, SP, PQ, AR, ST = "src/cc_ring_buffer.c", "src/memory/cc_static_pool.c", "src/cc_pqueue.c", "src/cc_array.c", "src/cc_stack.c"
+PROP_OF = {RB: "C19Gen", SP: "C12Gen", PQ: "C10Gen", AR: "C01Gen", ST: "C09Gen"}
 
 SCENARIOS = [
     ("baseline", [], set()),
@@ -87,10 +89,84 @@ SCENARIOS = [
      {"loop_step_pos", "loop_step_neg"}),
     ("P3 pqueue macro: `CC_PARENT` divides by 3",
      [(PQ, None, "#define CC_PARENT(x)  ((x > 0) ? (x - 1) / 2 : 0)", "#define CC_PARENT(x)  ((x > 0) ? (x - 1) / 3 : 0)")],
-     {"loop_step_pos", "push_room"}),
+     {"loop_step_pos", "tail_agrees"}),
     ("P4 pqueue constructor: the byte-size guard dropped",
      [(PQ, "cc_pqueue_new_conf", "if (conf->capacity > CC_MAX_ELEMENTS / sizeof(void*))\n        return CC_ERR_INVALID_CAPACITY;", "")],
      {"pq_new_conf_agrees"}),
+    ("A1 array conf_init: default capacity + 1",
+     [(AR, "cc_array_conf_init", "conf->capacity   = DEFAULT_CAPACITY;", "conf->capacity   = DEFAULT_CAPACITY + 1;")],
+     {"arr_conf_init_agrees"}),
+    ("A2 array new_conf: the capacity is not stored",
+     [(AR, "cc_array_new_conf", "ar->capacity   = conf->capacity;", "")], {"arr_new_conf_agrees"}),
+    ("A3 array new: the configuration is not initialised",
+     [(AR, "cc_array_new", "cc_array_conf_init(&c);", "")], {"arr_new_agrees"}),
+    ("A4 array destroy: the buffer is not released",
+     [(AR, "cc_array_destroy", "ar->mem_free(ar->buffer);", "")], {"arr_destroy_agrees"}),
+    ("A5 array add: the size is not incremented",
+     [(AR, "cc_array_add", "ar->size++;", "")], {"add_tail"}),
+    ("A6 array add_at: memmove source and destination exchanged",
+     [(AR, "cc_array_add_at", "memmove(&(ar->buffer[index + 1]),\n            &(ar->buffer[index]),",
+       "memmove(&(ar->buffer[index]),\n            &(ar->buffer[index + 1]),")], {"add_at_tail"}),
+    ("A7 array replace_at: `>=` -> `>`",
+     [(AR, "cc_array_replace_at", "index >= ar->size", "index > ar->size")], {"arr_replace_at_agrees"}),
+    ("A8 array swap_at: second bound dropped",
+     [(AR, "cc_array_swap_at", "index1 >= ar->size || index2 >= ar->size", "index1 >= ar->size")], {"arr_swap_at_agrees"}),
+    ("A9 array remove_at: the size is not decremented",
+     [(AR, "cc_array_remove_at", "ar->size--;", "")], {"arr_remove_at_agrees"}),
+    ("A10 array remove_last: `size - 1` -> `size`",
+     [(AR, "cc_array_remove_last", "ar->size - 1", "ar->size")], {"arr_remove_last_agrees"}),
+    ("A11 array remove_all: size set to 1",
+     [(AR, "cc_array_remove_all", "ar->size = 0;", "ar->size = 1;")], {"arr_remove_all_agrees"}),
+    ("A12 array get_at: `>=` -> `>`",
+     [(AR, "cc_array_get_at", "index >= ar->size", "index > ar->size")], {"arr_get_at_agrees"}),
+    ("A13 array get_last: emptiness guard dropped",
+     [(AR, "cc_array_get_last", "if (ar->size == 0)\n        return CC_ERR_VALUE_NOT_FOUND;\n", "")], {"arr_get_last_agrees"}),
+    ("A14 array size returns the capacity",
+     [(AR, "cc_array_size", "return ar->size;", "return ar->capacity;")], {"arr_size_agrees"}),
+    ("A15 array capacity returns the size",
+     [(AR, "cc_array_capacity", "return ar->capacity;", "return ar->size;")], {"arr_capacity_agrees"}),
+    ("A16 array trim_capacity: the new capacity is not stored",
+     [(AR, "cc_array_trim_capacity", "ar->capacity = size;", "")], {"arr_trim_capacity_agrees"}),
+    ("A17 array reverse: `j` is not decremented",
+     [(AR, "cc_array_reverse", "i++, j--", "i++")], {"reverse_loop"}),
+    ("A18 array expand_capacity: `<=` -> `<`",
+     [(AR, "expand_capacity", "new_capacity <= ar->capacity", "new_capacity < ar->capacity")], {"expand_agrees"}),
+    ("A19 array index_of: reports the following index",
+     [(AR, "cc_array_index_of", "*index = i;", "*index = i + 1;")], {"index_of_loop"}),
+    ("A20 array contains: counts twice",
+     [(AR, "cc_array_contains", "o++;", "o += 2;")], {"contains_loop"}),
+    ("A21 array remove: another status for an absent element",
+     [(AR, "cc_array_remove", "return CC_ERR_VALUE_NOT_FOUND;", "return CC_ERR_OUT_OF_RANGE;")], {"arr_remove_agrees"}),
+    ("S1 stack push forwards to add_at(…, 0) instead of add",
+     [(ST, "cc_stack_push", "return cc_array_add(stack->v, element);", "return cc_array_add_at(stack->v, element, 0);")],
+     {"stack_push_agrees"}),
+    ("S2 stack destroy: the header is not released",
+     [(ST, "cc_stack_destroy", "stack->mem_free(stack);", "")], {"stack_destroy_agrees"}),
+    ("S3 stack new_conf: the header is not released when the array cannot be built",
+     [(ST, "cc_stack_new_conf", "conf->mem_free(stack);", "")], {"stack_new_conf_agrees"}),
+    ("R1a audit3: pqueue destroy releases the struct twice and leaks the buffer",
+     [(PQ, "cc_pqueue_destroy", "pq->mem_free(pq->buffer);", "pq->mem_free(pq);")], {"pq_destroy_agrees"}),
+    ("R1b audit3: pqueue new_conf releases the (NULL) buffer instead of the struct on the refusal path",
+     [(PQ, "cc_pqueue_new_conf", "conf->mem_free(pq);", "conf->mem_free(buff);")], {"pq_new_conf_agrees"}),
+    ("R1c audit3: rbuf destroy releases the struct first and then reads its fields",
+     [(RB, "cc_rbuf_destroy", "rbuf->mem_free(rbuf->buf);\n    rbuf->mem_free(rbuf);", "rbuf->mem_free(rbuf);\n    rbuf->mem_free(rbuf->buf);")],
+     {"rbuf_destroy_agrees"}),
+    ("R1d audit3: pqueue expand_capacity releases the old buffer before copying from it",
+     [(PQ, "expand_capacity", "    memcpy(new_buff, pq->buffer, pq->size * sizeof(void*));\n\n    pq->mem_free(pq->buffer);",
+       "    pq->mem_free(pq->buffer);\n    memcpy(new_buff, pq->buffer, pq->size * sizeof(void*));\n")],
+     {"expand_agrees"}),
+    ("R2 audit3: the object is modified after `*rbuf = ringbuf;` (the caller sees it: the store is an alias)",
+     [(RB, "cc_rbuf_conf_new", "*rbuf = ringbuf;", "*rbuf = ringbuf;\n    ringbuf->capacity = 0;")],
+     {"rbuf_conf_new_agrees"}),
+    ("R3 audit3: an unsigned literal next to the comparator's int result (must be refused)",
+     [(PQ, "cc_pqueue_push", "pq->cmp(child, parent) > 0", "pq->cmp(child, parent) > 0u")], None),
+    ("R4 audit3: static pool calloc returns an uninitialised pointer on overflow",
+     [(SP, "cc_static_pool_calloc", "uint8_t* ptr = NULL;", "uint8_t* ptr;"),
+      (SP, "cc_static_pool_calloc", "if (size != 0 && count > ((size_t) -1) / size)\n        return NULL;",
+       "if (size != 0 && count > ((size_t) -1) / size)\n        return ptr;")],
+     {"core_calloc_agrees", "spool_calloc_agrees"}),
+    ("R7 audit3: memmove -> memcpy on overlapping ranges in add_at",
+     [(AR, "cc_array_add_at", "memmove(&(ar->buffer[index + 1]),", "memcpy(&(ar->buffer[index + 1]),")], {"add_at_tail"}),
     ("W1 width: `size_t head, tail;` -> `uint8_t head, tail;` (must be refused)",
      [(RB, None, "    size_t head, tail;", "    uint8_t head, tail;")], None),
     ("W2 width: `(size_t) index` -> `(uint8_t) index` in peek (must be refused)",
@@ -126,9 +202,23 @@ SCENARIOS = [
        "while (i != 0) {\n        if (!(pq->cmp(child, parent) > 0))\n            break;"),
       (PQ, "cc_pqueue_pop", "pq->size--;", "pq->size -= 1;")],
      set()),
+    ("HS audit3 harmless: `*out = pool;` moved to the top of cc_static_pool_new (an alias: nothing changes)",
+     [(SP, "cc_static_pool_new", "    *out = pool;\n\n", ""),
+      (SP, "cc_static_pool_new", "CC_StaticPool *pool = (CC_StaticPool*)pool_alloc;", "CC_StaticPool *pool = (CC_StaticPool*)pool_alloc;\n    *out = pool;")],
+     set()),
+    ("HA array behaviour-preserving: locals renamed / hoisted, `size++` as `+= 1`, a guard written the other way round",
+     [(AR, "cc_array_add", "ar->size++;", "ar->size += 1;"),
+      (AR, "cc_array_remove_at", "size_t block_size = (ar->size - 1 - index) * sizeof(void*);", "size_t nbytes = (ar->size - 1 - index) * sizeof(void*);"),
+      (AR, "cc_array_remove_at", "                block_size);", "                nbytes);"),
+      (AR, "cc_array_get_at", "if (index >= ar->size)", "if (ar->size <= index)"),
+      (AR, "cc_array_swap_at", "void *tmp;\n", "void *tmp = NULL;\n")],
+     set()),
 ] + [
-    (f"{h} behaviour-preserving rewrite seeded_harmless/{h}/patch.diff", [("patch", ROOT / "seeded_harmless" / h / "patch.diff")], set())
-    for h in ("H6-1", "H6-2", "H6-3") if (ROOT / "seeded_harmless" / h / "patch.diff").exists()
+    (f"{h} behaviour-preserving rewrite seeded_harmless/{h}/patch.diff", [("patch", ROOT / "seeded_harmless" / h / "patch.diff")],
+     set() if h.startswith("H6") else "tie")
+    for h in sorted(d.name for d in (ROOT / "seeded_harmless").glob("H*") if (d / "patch.diff").exists())
+    if any(c["file"] in (ROOT / "seeded_harmless" / h / "patch.diff").read_text() for c in gen_funcs.TABLE)
+       or h in ("H6-3",)
 ]
 
 
@@ -171,18 +261,24 @@ def mirror_lib(dst):
         rel = Path(d).relative_to(LIB)
         (dst / rel).mkdir(parents=True, exist_ok=True)
         for f in files:
-            if rel == Path("CollectionsC/Generated") and f.startswith("Funcs."):
+            if rel == Path("CollectionsC/Generated") and f.startswith("Funcs"):
                 continue
             os.symlink(Path(d) / f, dst / rel / f)
 
 
 def blocks_of(prop):
+    """[(first line, name)] of the theorems / examples; a block begins at its doc comment"""
     src = prop.read_text().split("\n")
-    out = []
+    out, doc = [], None
     for i, line in enumerate(src, 1):
+        if line.startswith("/--"):
+            doc = i
         m = re.match(r"^(theorem|example)\b\s*(\S*)", line)
         if m:
-            out.append((i, m.group(2) if m.group(1) == "theorem" else f"example@{prop.stem}:{i}"))
+            out.append((doc or i, m.group(2) if m.group(1) == "theorem" else f"example@{prop.stem}:{i}"))
+            doc = None
+        elif line.strip() == "" or re.match(r"^(def|namespace|end|open|import)\b", line):
+            doc = None if not line.startswith("/--") else doc
     return out
 
 
@@ -210,13 +306,18 @@ def run(tmp, label, edits):
     problems = gen_funcs.write(repo, gen / "Funcs.lean")
     lib = tmp / label / "lib"
     mirror_lib(lib)
-    r = sh(["lake", "env", "sh", "-c",
-            f'cd {work} && LEAN_PATH={lib} exec lean -o {lib}/CollectionsC/Generated/Funcs.olean '
-            f'CollectionsC/Generated/Funcs.lean'], cwd=LEAN)
-    if r.returncode != 0:
-        raise SystemExit(f"self-test [{label}]: the regenerated Funcs.lean does not compile:\n{r.stdout}")
+    mods = sorted(q.stem for q in gen.glob("Funcs*.lean"))
+    for mod in mods:
+        r = sh(["lake", "env", "sh", "-c",
+                f'cd {work} && LEAN_PATH={lib} exec lean -o {lib}/CollectionsC/Generated/{mod}.olean '
+                f'CollectionsC/Generated/{mod}.lean'], cwd=LEAN)
+        if r.returncode != 0:
+            raise SystemExit(f"self-test [{label}]: the regenerated {mod}.lean does not compile:\n{r.stdout}")
     bad, examples, lines = set(), set(), []
-    for prop in PROPS:
+    touched = {PROP_OF.get(e[0]) for e in edits if e[0] != "patch"}
+    patched = any(e[0] == "patch" for e in edits)
+    props = [p for p in PROPS if p.stem in touched] if edits and not patched and None not in touched else PROPS
+    for prop in props:
         r = sh(["lake", "env", "sh", "-c", f'LEAN_PATH={lib} exec lean {prop}'], cwd=LEAN)
         blocks = blocks_of(prop)
         found = False
@@ -243,20 +344,36 @@ def run(tmp, label, edits):
                     nxt.add(name)
         tainted |= nxt
         frontier = nxt
-    return bad, examples, problems, lines, (gen / "Funcs.lean").read_text(), tainted
+    return bad, examples, problems, lines, "".join((gen / f"{m}.lean").read_text() for m in mods), tainted
 
 
 def main():
-    before = hashlib.sha256((GEN / "Funcs.lean").read_bytes()).hexdigest()
+    before = hashlib.sha256(b"".join(q.read_bytes() for q in sorted(GEN.glob("Funcs*.lean")))).hexdigest()
     r = sh([str(ROOT / "tools" / "lk"), "build", "CollectionsC.Proofs.Rbuf", "CollectionsC.Proofs.StaticPool",
-            "CollectionsC.Generated.Funcs"])
+            "CollectionsC.Generated.FuncsRbuf", "CollectionsC.Generated.FuncsSpool",
+            "CollectionsC.Generated.FuncsPQueue", "CollectionsC.Generated.FuncsArray", "CollectionsC.Generated.FuncsStack",
+            "CollectionsC.Proofs.PQueue", "CollectionsC.Proofs.ArrayMem", "CollectionsC.Properties.C01Gen",
+            "CollectionsC.Model.Stack"])
     if r.returncode != 0:
         raise SystemExit("self-test: could not build the imports of C19Gen/C12Gen:\n" + r.stdout[-2000:])
     ok = True
     with tempfile.TemporaryDirectory(prefix="gen_funcs_test_") as t:
         tmp = Path(t)
+        only = sys.argv[1:]
         for k, (label, edits, expected) in enumerate(SCENARIOS):
+            if only and not any(label.startswith(o) for o in only):
+                continue
             bad, examples, problems, lines, txt, tainted = run(tmp, f"s{k}", edits)
+            if expected == "tie":
+                # a rewrite that was not written with the translator in mind: either every theorem still
+                # holds or only translation-tie theorems / translations fail (checklib's NOTE path)
+                kept = not bad and not problems
+                print(f"[ok] {label}")
+                print("        " + ("keeps every theorem" if kept else
+                      f"NOTE path: {len(problems)} construct(s) not translated, failing theorems {sorted(bad) or 'none'}"))
+                for x in problems[:3]:
+                    print("          ", x)
+                continue
             if expected is None:
                 good = bool(problems)
                 print(f"[{'ok' if good else 'FAIL'}] {label}")
@@ -265,7 +382,7 @@ def main():
                 continue
             good = bad == expected and not problems
             if label == "baseline":
-                same = txt == (GEN / "Funcs.lean").read_text()
+                same = txt == "".join(q.read_text() for q in sorted(GEN.glob("Funcs*.lean")))
                 good = good and same and not examples
                 print(f"[{'ok' if good else 'FAIL'}] baseline: regenerated Funcs.lean identical to the tree's: {same}; "
                       f"failing theorems: {sorted(bad) or 'none'}")
@@ -280,7 +397,7 @@ def main():
                 for x in problems + lines:
                     print("       ", x)
             ok = ok and good
-    after = hashlib.sha256((GEN / "Funcs.lean").read_bytes()).hexdigest()
+    after = hashlib.sha256(b"".join(q.read_bytes() for q in sorted(GEN.glob("Funcs*.lean")))).hexdigest()
     print(f"Generated/Funcs.lean in the tree untouched: {before == after}")
     ok = ok and before == after
     print("SELF-TEST", "PASSED" if ok else "FAILED")
